@@ -1,4 +1,5 @@
 use crate::constants::*;
+use crate::errors::*;
 use crate::parsed_packet::*;
 use crate::rr_iterator::*;
 
@@ -66,6 +67,30 @@ impl DNSIterable for EdnsIterator<'_> {
     #[inline]
     fn parsed_packet_mut(&mut self) -> &mut ParsedPacket {
         self.rr_iterator.parsed_packet
+    }
+
+    /// Decompresses the whole packet while keeping the iterator available.
+    /// An option is not a record: its offset is carried over relatively to the
+    /// beginning of the `OPT` data, that decompression moves but doesn't alter.
+    fn uncompress(&mut self) -> Result<(), Error> {
+        let rr_iterator = &mut self.rr_iterator;
+        if !rr_iterator.parsed_packet.maybe_compressed {
+            return Ok(());
+        }
+        let previous_offset_edns = rr_iterator.parsed_packet.offset_edns;
+        rr_iterator.parsed_packet.recompute()?;
+        if let (Some(offset), Some(previous_offset_edns), Some(offset_edns)) = (
+            rr_iterator.offset,
+            previous_offset_edns,
+            rr_iterator.parsed_packet.offset_edns,
+        ) {
+            let offset = offset - previous_offset_edns + offset_edns;
+            rr_iterator.offset = Some(offset);
+            rr_iterator.name_end = offset;
+            rr_iterator.offset_next =
+                RRIterator::edns_skip_rr(rr_iterator.parsed_packet.packet(), offset);
+        }
+        Ok(())
     }
 
     fn next(mut self) -> Option<Self> {
